@@ -706,6 +706,9 @@ def delete_subscript(ip, obj, idx):
             raise RaiseEx("KeyError", "symbolic key")
         obj.dom = z3.Store(obj.dom, term(idx), False)
         return
+    if isinstance(obj, Struct) and (obj.cls, "__delitem__") in C.STRUCT_METHODS:
+        C.STRUCT_METHODS[(obj.cls, "__delitem__")](ip, obj, [idx], {})
+        return
     raise Unsupported(f"del on {type(obj).__name__}")
 
 
